@@ -348,9 +348,9 @@ def check_pruning(rep, tier, seed):
         refs = {}
         for oi, op in enumerate(case):
             if op.startswith("refroot ") and lean[ci][oi]:
-                m = re.match(r"ref=(-?\d+) live=(\d) moves=(\d+)", lean[ci][oi][0])
+                m = re.match(r"ref=(-?\d+) live=(\d) moves=(\d+) liveK=(\d)", lean[ci][oi][0])
                 if m:
-                    refs[int(op.split()[1])] = (int(m.group(1)), m.group(2) == "1", int(m.group(3)))
+                    refs[int(op.split()[1])] = (int(m.group(1)), m.group(2) == "1", int(m.group(3)), m.group(4) == "1")
         for oi, op in enumerate(case):
             if op.startswith("search "):
                 infos, res = parse_search(rust[ci][oi])
@@ -358,25 +358,28 @@ def check_pruning(rep, tier, seed):
                     ref = refs.get(inf["depth"])
                     if not ref:
                         continue
-                    v, live, nm = ref
+                    v, live, nm, livek = ref
                     if nm == 1:
                         kinds["single_reply_skipped"] += 1
                         continue
-                    if not live:
+                    if not livek:
                         kinds["tree_outside_hypotheses_skipped"] += 1
                         continue
                     stats["values_compared"] += 1
                     kinds["depth_%d" % inf["depth"]] += 1
-                    if inf["score"] != v:
+                    kinds["exact_hypotheses" if live else "clamped_hypotheses_only"] += 1
+                    clamp = (lambda x: x) if live else (lambda x: max(-9000, min(9000, x)))
+                    if clamp(inf["score"]) != clamp(v):
                         rep.violation("impl-vs-spec", f"pruned search value {inf['score']} differs from exhaustive value {v} at depth {inf['depth']} @ {fen_before(case, rust[ci], oi)}",
                                       f"ops {case[: oi + 1]}", replay_ops=case[: oi + 1])
             if op.startswith("searchroot ") and rust[ci][oi]:
                 m = re.match(r"best=(\S+) score=(-?\d+) only=(\d)", rust[ci][oi][0])
                 d = int(op.split()[1])
                 ref = refs.get(d)
-                if m and ref and ref[1] and ref[2] != 1:
+                if m and ref and ref[3] and ref[2] != 1:
                     stats["values_compared"] += 1
-                    if int(m.group(2)) != ref[0]:
+                    clamp = (lambda x: x) if ref[1] else (lambda x: max(-9000, min(9000, x)))
+                    if clamp(int(m.group(2))) != clamp(ref[0]):
                         rep.violation("impl-vs-spec", f"root value {m.group(2)} differs from exhaustive value {ref[0]} at depth {d} @ {fen_before(case, rust[ci], oi)}",
                                       "", replay_ops=case[: oi + 1])
     finish_corr(rep, "C09", cases, first, rust, lean)
